@@ -120,6 +120,9 @@ def mutating_params(repo):
                         name = t.value.id
             if name is None:
                 continue
+            # a parameter name that the function rebinds (`names = set(names)`) is its own object from there on
+            if any(isinstance(a_, ast.Assign) and any(isinstance(t_, ast.Name) and t_.id == name for t_ in a_.targets) for a_ in ast.walk(fi.node)):
+                continue
             if name in pos:
                 hits.add(pos.index(name))
             elif name in elem_of and elem_of[name] == vararg:
@@ -360,3 +363,36 @@ def rule_no_memoisation(check, rule, module_names, why):
     if not hits:
         check.holds(rule, 'sigtools/%s.py:0 %s' % (module_names[0], module_names[0]), 'none of the %d functions of %s is wrapped in a memoising decorator'
                     % (n, ', '.join(module_names)), key='memoised|none|%s' % module_names[0], nontrivial=False)
+
+
+def rule_partial_targets_pure(check, rule, module_names):
+    """A function handed to `functools.partial(F, <bound arguments>)` is called once per use of the partial object with the
+    *same* bound arguments.  If F edits one of them in place (`exceptions.remove(...)`), the second use sees what the first
+    one left: a decorator object applied to two functions treats the second differently.  F must work on a copy."""
+    repo = check.repo
+    mut = mutating_params(repo)
+    n = 0
+    for fi in repo.all_funcs():
+        if fi.module.name not in module_names:
+            continue
+        for c in [x for x in ast.walk(fi.node) if isinstance(x, ast.Call) and norm(x.func).split('.')[-1] == 'partial' and x.args]:
+            tgt = None
+            if isinstance(c.args[0], ast.Name):
+                r = repo.resolve_global(fi.module, c.args[0].id)
+                if r is not None and r[0] == 'func':
+                    tgt = r[1]
+            if tgt is None:
+                continue
+            n += 1
+            bound = len(c.args) - 1
+            hits = sorted(i for i in mut.get(tgt.key, ()) if isinstance(i, int) and i < bound)
+            key = '%s|partial-target|%s' % (fi.key, tgt.key)
+            if hits:
+                pname = tgt.params()[0][hits[0]]
+                check.violation(rule, '%s %s' % (fi.loc(c), fi.key), '%s is bound into a reusable partial of %s, which edits its parameter %r in place: every use '
+                                'of the same partial object after the first one finds it already consumed'
+                                % (norm(c.args[hits[0] + 1])[:30], tgt.name, pname), key=key,
+                                witness="deco = autokwoargs(exceptions=['c']); deco(f1); deco(f2): f2's exception is ignored")
+            else:
+                check.holds(rule, '%s %s' % (fi.loc(c), fi.key), 'partial(%s, ...): the target does not edit its bound arguments in place' % tgt.name, key=key)
+    check.floor(rule, 'partial objects built from package functions', n, 2)
